@@ -129,8 +129,13 @@ def json_load(value):
 
     try:
         return json.loads(value)
+    except json.JSONDecodeError:
+        raise
     except RecursionError as ex:
         raise json.JSONDecodeError("Value nested too deeply", value, 0) from ex
+    except ValueError as ex:
+        # not every failure of json.loads is a JSONDecodeError, e.g. an integer with more digits than python converts
+        raise json.JSONDecodeError(f"{type(ex).__name__}: {ex}", value, 0) from ex
 
 
 def toml_load(value):
